@@ -905,6 +905,21 @@ class FileStorage(
             self._nextpos = 0
         self._blob_tpc_abort()
 
+    def _blob_same_bytes(self, oid, tid1, tid2):
+        # Do two committed revisions of a blob hold the same bytes?
+        try:
+            with open(self.fshelper.getBlobFilename(oid, tid1), 'rb') as f1:
+                with open(self.fshelper.getBlobFilename(oid, tid2),
+                          'rb') as f2:
+                    while 1:
+                        d1 = f1.read(1 << 16)
+                        if d1 != f2.read(1 << 16):
+                            return False
+                        if not d1:
+                            return True
+        except OSError:
+            return False
+
     def _undoDataInfo(self, oid, pos, tpos):
         """Return the tid, data pointer, and data for the oid record at pos
         """
@@ -1002,6 +1017,14 @@ class FileStorage(
                             raise UndoError(
                                 "Can't undo an add transaction followed by"
                                 " conflicting transactions.", oid)
+                    elif (self.blob_dir and current_data
+                          and self.is_blob_record(current_data)
+                          and not self._blob_same_bytes(oid, tid, ctid)):
+                        # The records of a blob are all alike: its bytes
+                        # are in the blob files, and those differ.
+                        raise UndoError(
+                            "Blob data were modified by a later"
+                            " transaction", oid)
                 except KeyError:
                     # LoadBack gave us a key error. Bail.
                     raise UndoError("_loadBack() failed", oid)
